@@ -16,7 +16,7 @@ LEVEL = "exploration"
 TECHNIQUE = "runtime monitor: exhaustive (class, unit, value) sweep against value*factor (bit-exact), compound-unit recomposition, fresh-interpreter import probe"
 RULE = ("family 'table': one case per quantity class covering ALL its declared units x 9 values x ALL target units "
         "(as_unit), str(), comparisons/neg/abs/add/sub against a second unit, descriptions, aliases, base unit, "
-        "compound-unit recomposition; family 'names': the public name list in-process and in a fresh interpreter; "
+        "compound-unit recomposition; every result made during a case is re-read at its end (value bits, unit, type unchanged); family 'names': the public name list in-process and in a fresh interpreter; "
         "family 'rnd': random (class, unit, unit2, value, value2) quadruples with log-uniform magnitudes; "
         "non-trivial = class with >= 2 units (table) / two different units (rnd); distinct = canonical case hash")
 ASSUMPTIONS = ["the class attributes _units/_baseunit/_displayunits/_descriptions documented in Quantity's docstring are the declaration tables",
@@ -118,12 +118,33 @@ def _compose(u, cls, idx):
     return res or None
 
 
+_LIVE = []      # (object, SI value as hex, unit, type) of results made during the case: values never change afterwards
+
+
+def _keep(q):
+    _LIVE.append((q, float(q).hex(), q.unit, type(q)))
+    return q
+
+
+def _still_the_same(ctx):
+    for q, sihex, unit, tp in _LIVE:
+        ctx.count("results_re-read_at_the_end")
+        try:
+            ok = float(q).hex() == sihex and q.unit == unit and type(q) is tp and float(q.si).hex() == sihex
+        except Exception as e:
+            ok = False
+        if not ok:
+            ctx.viol("earlier-result-changed-afterwards", {"class": tp.__name__, "was": [sihex, unit], "now": [float(q).hex(), getattr(q, "unit", None)]})
+            break
+    del _LIVE[:]
+
+
 def _check_qty(ctx, cls, unit, value, info):
     from vlib.base import fx
     f = cls._units[unit]
     ctx.count("unit_value_checks")
     try:
-        q = cls(value, unit)
+        q = _keep(cls(value, unit))
     except Exception as e:
         ctx.viol(f"construct:raises:{type(e).__name__}", {**info, "exc": repr(e)})
         return None
@@ -160,8 +181,10 @@ def _check_ops(ctx, cls, a, b, info):
         for name, got, want in res:
             if got is not want:
                 ctx.viol(f"compare-{name}", {**info, "got": got, "want": want})
-        for name, r, want in (("neg", -a, -fa), ("abs", abs(a), abs(fa)), ("add", a + b, fa + fb), ("sub", a - b, fa - fb)):
-            if type(r) is not cls or fx(float(r)) != fx(want) or r.unit != a.unit:
+        for name, r, want in (("neg", -a, -fa), ("abs", abs(a), abs(fa)), ("add", a + b, fa + fb), ("sub", a - b, fa - fb),
+                              ("sub-self", a - a, fa - fa), ("sub-swapped", b - a, fb - fa)):
+            _keep(r)
+            if type(r) is not cls or fx(float(r)) != fx(want) or r.unit != (b.unit if name == "sub-swapped" else a.unit):
                 ctx.viol(f"arith-{name}", {**info, "got": [type(r).__name__, fx(float(r)), getattr(r, "unit", None)],
                                            "want": [cls.__name__, fx(want), a.unit]})
     except Exception as e:
@@ -173,6 +196,14 @@ def run_case(case, ctx):
     cl = _classes()
     if case["fam"] == "names":
         return _names(ctx)
+    try:
+        return _run_units(case, ctx, cl)
+    finally:
+        _still_the_same(ctx)
+
+
+def _run_units(case, ctx, cl):
+    from vlib.base import fx
     cls = cl[case["c"]]
     units = list(cls._units.keys())
     if case["fam"] == "rnd":
@@ -184,7 +215,7 @@ def run_case(case, ctx):
         if a is not None and b is not None:
             _check_ops(ctx, cls, a, b, info)
             _check_ops(ctx, cls, a, cls(case["v"], u).as_unit(u2), info)
-            c = a.as_unit(u2)
+            c = _keep(a.as_unit(u2))
             ctx.count("as_unit_checks")
             if fx(float(c.si)) != fx(float(a.si)) or c.unit != u2 or type(c) is not cls:
                 ctx.viol("as_unit", {**info, "got": [fx(float(c.si)), c.unit], "want": [fx(float(a.si)), u2]})
@@ -256,10 +287,10 @@ def run_case(case, ctx):
                 _check_ops(ctx, cls, a, b, {**info, "a": float(a), "b": [2.0, other]})
                 _check_ops(ctx, cls, a, a.as_unit(other), {**info, "a": float(a), "b": "same value in " + other})
             for u2 in units:
-                for a in (qs[5], qs[3]):
+                for a in (qs[5], qs[3], qs[0]):
                     ctx.count("as_unit_checks")
                     try:
-                        c = a.as_unit(u2)
+                        c = _keep(a.as_unit(u2))
                         if fx(float(c.si)) != fx(float(a.si)) or c.unit != u2 or type(c) is not cls:
                             ctx.viol("as_unit", {**info, "unit2": u2, "got": [fx(float(c.si)), c.unit], "want": [fx(float(a.si)), u2]})
                     except Exception as e:
